@@ -32,7 +32,7 @@ func dataEmits(res *GbnResult, ep int) []string {
 
 func c14Case(t *testing.T, r *Recorder, maxChunk int, lens []int, class string) {
 	sc := &GbnScenario{Name: fmt.Sprintf("%s-m%d-%v", class, maxChunk, lens), N: 20, MaxChunk: maxChunk,
-		Msgs: [2][]int{lens, nil}, Latency: time.Millisecond, RunFor: 5 * time.Second, Static: 60 * time.Second}
+		Msgs: [2][]int{lens, nil}, Latency: time.Millisecond, RunFor: 50 * time.Second, Static: 60 * time.Second}
 	res := RunGbn(t, sc, nil)
 	if res.Panic != "" || res.HsErr[0] != "" || res.HsErr[1] != "" {
 		r.Violate("C14/run-failed", res.Panic+res.HsErr[0]+res.HsErr[1], sc)
@@ -222,8 +222,9 @@ func TestC14(t *testing.T) {
 	for i := 0; i < pick(6, 40); i++ {
 		m := []int{0, 1, 7, 1000, 4096, 65535}[rng.Intn(6)]
 		lens := []int{rng.Intn(1 << 20), rng.Intn(3), rng.Intn(70000)}
-		if m == 1 {
-			lens = []int{rng.Intn(300), 0, rng.Intn(5)}
+		if m == 1 || m == 7 {
+			// keep the number of chunks (and of simulated packets) moderate
+			lens = []int{rng.Intn(300 * m), 0, rng.Intn(5 * m)}
 		}
 		c14Case(t, r, m, lens, "large")
 	}
